@@ -5,11 +5,12 @@ from vlib.core import Case, hx
 from vlib import tdgen
 
 ID = "C08"
+NEEDS_CLI = True
 RULE = ("ops td.hash <document> -> (domain separator, message hash, digest), td.encode_type <types> <name> (hook), td.kind <type string> (hook): "
         "random type graphs (1..6 structs, members in random order, shared and repeated dependencies, self/mutual recursion through arrays, "
         "multi-dimensional fixed/dynamic arrays, every atomic type), values generated type-directed so documents are accepted; every permutation of "
         "member order for dependency-bearing structs of <= 4 members; all atomic type strings; the three repo fixtures; "
-        "non-trivial = distinct document whose primary type has >= 1 struct dependency; judge = executable EIP-712 spec (Spec.Eip712)")
+        "a random sample of the cases is re-run through every sub-command that reaches the same code (vlib/routes.py); non-trivial = distinct document whose primary type has >= 1 struct dependency; judge = executable EIP-712 spec (Spec.Eip712)")
 EXHAUSTIVE_SWEEPS = {"quick": ["all 24 member orders of the 4-member dependency witness", "all 100 atomic type strings (td.kind)"],
                      "thorough": ["all member orders of 40 random graphs with <= 4 members", "all 100 atomic type strings (td.kind)"]}
 
@@ -100,4 +101,11 @@ def gen(rng, tier):
         t = rng.choice(tdgen.ALL_ATOMS + ["A", "Foo"]) + "".join(rng.choice(["[]", "[1]", "[22]", "[0]"]) for _ in range(rng.randint(0, 8)))
         cases.append(Case("td.kind " + hx(t), tags=("kind-arrays",), nontrivial=False))
     cases.append(Case("td.kind " + hx("uint8" + "[]" * 64), tags=("kind-arrays",), nontrivial=False))
+    from vlib import routes
+    cases += routes.add_routes(cases, rng, 60, tier)
     return cases
+
+
+def run_cli(case):
+    from vlib import cli
+    return cli.run_cli(case)
